@@ -94,9 +94,10 @@ class NarwhalsMaterializer(FormulaMaterializer):
         if drop_rows:
             values = drop_nulls(values, indices=drop_rows)
         if spec.output == "sparse":
-            return spsparse.csc_matrix(
-                numpy.array(values).reshape((values.shape[0], 1))
-            )
+            array = numpy.array(values)
+            if array.dtype == numpy.float16:  # not supported by scipy.sparse
+                array = array.astype(numpy.float32)
+            return spsparse.csc_matrix(array.reshape((array.shape[0], 1)))
         return values
 
     @override
